@@ -32,6 +32,9 @@ func alphabetNames(names []string) []m.Op {
 			m.Op{K: "createIndex", Coll: n, Field: "x"}, m.Op{K: "dropIndex", Coll: n, Field: "x"},
 		)
 	}
+	// a collection created from a query: on another collection (present or missing), and on the very name being created
+	out = append(out, m.Op{K: "createByQuery", Coll: names[1], Q: qOn(names[0], m.Leaf("gte", "x", int64(2)))},
+		m.Op{K: "createByQuery", Coll: names[0], Q: qOn(names[0], nil)})
 	return out
 }
 
